@@ -198,6 +198,9 @@ func discover(spkgs []*ssa.Package) []*harnessInfo {
 			if v, ok := d["timeout"]; ok {
 				h.timeout, _ = strconv.Atoi(v)
 			}
+			if v, ok := d["replay"]; ok {
+				replayMode[name] = v
+			}
 			h.bounds = d["bounds"]
 			h.outside = d["outside"]
 			hs = append(hs, h)
@@ -207,32 +210,73 @@ func discover(spkgs []*ssa.Package) []*harnessInfo {
 	return hs
 }
 
+var slots = make(chan struct{}, 16)
+
 func runHarness(prog *ssa.Program, spkgs []*ssa.Package, h *harnessInfo, tier int, solverBin string, transcript string) *harnessResult {
 	t0 := time.Now()
 	tb := newTB()
-	var tr *os.File
-	if transcript != "" {
-		tr, _ = os.Create(transcript)
-		defer tr.Close()
+	sh := &Shared{trivial: map[string]int{}, statusCount: map[string]int{}, funcsSeen: map[string]bool{}, stubsSeen: map[string]bool{},
+		reached: map[string]int{}, covers: map[string]bool{}, errTypeCache: map[string]types.Type{}, witness: map[string]*Model{}}
+	sh.cond = sync.NewCond(&sh.mu)
+	mk := func() *Engine {
+		sol, err := newSolver(tb, solverBin, h.timeout, nil)
+		if err != nil {
+			fatal(2, "cannot start solver: %v", err)
+		}
+		return &Engine{Shared: sh, prog: prog, tb: tb, sol: sol, ia: h.mode == "ia", harness: h.name, hprop: h.props[0], tier: tier,
+			maxPaths: h.maxPaths, maxSteps: 400000}
 	}
-	var sol *Solver
-	var err error
-	if tr != nil {
-		sol, err = newSolver(tb, solverBin, h.timeout, tr)
-	} else {
-		sol, err = newSolver(tb, solverBin, h.timeout, nil)
+	var wg sync.WaitGroup
+	stop := false
+	worker := func(e *Engine) {
+		defer wg.Done()
+		defer func() { <-slots }()
+		for {
+			sh.mu.Lock()
+			if len(sh.work) == 0 || stop {
+				sh.workers--
+				sh.queries += e.sol.queries
+				sh.unknowns += e.sol.unknowns
+				sh.solverErrors += e.sol.errors
+				sh.solverTime += e.sol.dur
+				sh.mu.Unlock()
+				e.sol.close()
+				return
+			}
+			if sh.paths >= h.maxPaths {
+				stop = true
+				sh.inconclusive = append(sh.inconclusive, fmt.Sprintf("path limit %d reached with %d states pending", h.maxPaths, len(sh.work)))
+				sh.mu.Unlock()
+				continue
+			}
+			s := sh.work[len(sh.work)-1]
+			sh.work = sh.work[:len(sh.work)-1]
+			sh.mu.Unlock()
+			e.run(s)
+		}
 	}
-	if err != nil {
-		fatal(2, "cannot start solver: %v", err)
+	sh.spawnWorker = func() {
+		select {
+		case slots <- struct{}{}:
+		default:
+			return
+		}
+		sh.mu.Lock()
+		if len(sh.work) == 0 || sh.workers >= 16 || stop {
+			sh.mu.Unlock()
+			<-slots
+			return
+		}
+		sh.workers++
+		sh.mu.Unlock()
+		wg.Add(1)
+		go worker(mk())
 	}
-	defer sol.close()
-	e := &Engine{prog: prog, tb: tb, sol: sol, ia: h.mode == "ia", harness: h.name, hprop: h.props[0], tier: tier,
-		trivial: map[string]int{}, statusCount: map[string]int{}, funcsSeen: map[string]bool{}, stubsSeen: map[string]bool{},
-		maxPaths: h.maxPaths, maxSteps: 400000, unwind: h.unwind, reached: map[string]int{}, covers: map[string]bool{},
-		panicsOn: true, errTypeCache: map[string]types.Type{}, witness: map[string]*Model{}}
-	st := &State{globals: map[*ssa.Global]int{}, locks: map[int]int{}, heap: []*Object{nil}}
+	slots <- struct{}{}
+	e := mk()
+	st := &State{globals: map[*ssa.Global]int{}, locks: map[int]int{}, heap: []*Object{nil}, unwind: h.unwind, panicsOn: true}
 	st.gen = e.newGen()
-	// package initialisers of the module under test (sentinel errors etc.), then the harness
+	// package initialisers of the module under test (sentinel errors etc.) run first, then the harness
 	e.pushFrame(st, h.fn, nil, nil, nil)
 	var inits []*ssa.Function
 	for _, p := range spkgs {
@@ -245,23 +289,18 @@ func runHarness(prog *ssa.Program, spkgs []*ssa.Package, h *harnessInfo, tier in
 	for i := len(inits) - 1; i >= 0; i-- {
 		e.pushFrame(st, inits[i], nil, nil, nil)
 	}
-	e.work = []*State{st}
-	for len(e.work) > 0 {
-		if e.paths >= e.maxPaths {
-			e.inconclusive = append(e.inconclusive, fmt.Sprintf("path limit %d reached with %d states pending", e.maxPaths, len(e.work)))
-			break
-		}
-		s := e.work[len(e.work)-1]
-		e.work = e.work[:len(e.work)-1]
-		e.run(s)
-	}
-	r := &harnessResult{info: h, obligs: e.obligs, trivial: e.trivial, paths: e.paths, instrs: e.instrs, forks: e.forks,
-		queries: sol.queries, unknowns: sol.unknowns, solverErrors: sol.errors, solverTime: sol.dur, wall: time.Since(t0),
-		status: e.statusCount, inconclusive: e.inconclusive, reached: e.reached, covers: e.covers, witness: e.witness}
-	for f := range e.funcsSeen {
+	sh.work = []*State{st}
+	sh.workers = 1
+	wg.Add(1)
+	go worker(e)
+	wg.Wait()
+	r := &harnessResult{info: h, obligs: sh.obligs, trivial: sh.trivial, paths: sh.paths, instrs: int(sh.instrs), forks: sh.forks,
+		queries: sh.queries, unknowns: sh.unknowns, solverErrors: sh.solverErrors, solverTime: sh.solverTime, wall: time.Since(t0),
+		status: sh.statusCount, inconclusive: sh.inconclusive, reached: sh.reached, covers: sh.covers, witness: sh.witness}
+	for f := range sh.funcsSeen {
 		r.funcs = append(r.funcs, f)
 	}
-	for f := range e.stubsSeen {
+	for f := range sh.stubsSeen {
 		r.stubs = append(r.stubs, f)
 	}
 	sort.Strings(r.funcs)
@@ -343,6 +382,8 @@ func cmdRun(args []string) {
 			noEvidence = true
 		case "--no-evidence":
 			noEvidence = true
+		case "--no-replay":
+			noReplay = true
 		default:
 			prop = args[i]
 		}
@@ -378,21 +419,15 @@ func cmdRun(args []string) {
 	}
 	results := make([]*harnessResult, len(hs))
 	var wg sync.WaitGroup
-	sem := make(chan struct{}, 16)
 	for i, h := range hs {
 		wg.Add(1)
 		go func(i int, h *harnessInfo) {
 			defer wg.Done()
-			sem <- struct{}{}
-			defer func() { <-sem }()
 			results[i] = runHarness(prog, spkgs, h, tier, solverBin, "")
 		}(i, h)
 	}
 	wg.Wait()
+	extraOverlay = extra
 	code := report(prop, tierName, seed, results, loadDur, time.Since(t0), verbose, noEvidence)
 	os.Exit(code)
-}
-
-func cmdReplay(args []string) {
-	fatal(2, "replay: not implemented yet")
 }
